@@ -173,3 +173,36 @@ Fixpoint badv_from {A} (f : A -> N) (i : N) (l : list A) : list N :=
 Definition badv {A} (f : A -> N) (l : list A) : list N := badv_from f 0 l.
 Definition vcase_verdict (c : vcase) : N := rcase_verdict (vcase_rcase c).
 Definition tcase_verdict (c : tcase) : N := 0.
+
+(* ---- end to end: the full proxy (forwarder.NewHTTPProxy, PROXY protocol on) in a child process, an origin that
+   echoes the X-Forwarded-For it saw.  e_hdr is followed on the wire by e_req (a plain GET for the origin). *)
+Record ecase := {
+  e_hdr : str; e_req : str;
+  e_crashed : bool;          (* the proxy process died *)
+  e_alive : bool;            (* afterwards a well-formed connection was served *)
+  e_status : N;              (* HTTP status of the response on this connection, 0 = none (connection failed) *)
+  e_xff : option str;        (* X-Forwarded-For at the origin as a 16-byte address *)
+  e_sock_ip : str            (* the client socket's own IP *)
+}.
+
+Definition ecase_verdict (c : ecase) : N :=
+  if e_crashed c then 1 else if negb (e_alive c) then 2 else
+  match spec_find (e_hdr c ++ e_req c) with
+  | Some (a, n) =>
+      let exp := match adv_remote a (A false (e_sock_ip c) 0) with Some ad => a_ip ad | None => [] end in
+      if negb (e_status c =? 200) then 3 else if negb (ostr_eqb (e_xff c) (Some exp)) then 4 else 0
+  | None => if e_status c =? 0 then 0 else 5
+  end.
+
+(* the model predicts the crash: a nil RemoteAddr is dereferenced by the accept loop *)
+Definition ecase_model_ok (c : ecase) : bool :=
+  let r := read_flat src_cfg (e_hdr c ++ e_req c) in
+  match remote_addr src_cfg r (A false (e_sock_ip c) 0) with
+  | None => e_crashed c
+  | Some ad =>
+      negb (e_crashed c) &&
+      match r with
+      | Ok _ rest => if str_eqb rest (e_req c) then (e_status c =? 200) && ostr_eqb (e_xff c) (Some (a_ip ad)) else true
+      | Err _ _ => e_status c =? 0
+      end
+  end.
